@@ -674,6 +674,7 @@ def run(tier):
     res.floor("C17.R4b", 3)
     res.stats["counter_write_sites"] = n_w
     rule_R1w(res, prog)
+    rule_R5(res, prog)
     return res.finish()
 
 
@@ -937,3 +938,45 @@ def rule_R1w(res, prog, prop=PROP, rid="C17.R1w"):
                                      file=fn.relfile, line=ln)
                     res.instance(rid_, "%s:%s %s (%s)" % (fn.name, ln, pp(nd)[:24], why[:80]), ok, finding=f_)
     res.floor(rid_, 6)
+
+
+def rule_R5(res, prog):
+    """RFC 8446 4.2.10: no early data after a HelloRetryRequest.  When the client restarts at ClientHello (hsState =
+    SSL_HS_TLS_1_3_START under the fact that a HelloRetryRequest was received) every path to the function's exit clears
+    ssl->tls13ClientEarlyDataEnabled - otherwise writing ClientHello2 installs the same early-data write key again with the
+    sequence number back at 0, and the next early-data record reuses the nonce of the first."""
+    rid = "C17.R5"
+    res.rule(rid, "the HelloRetryRequest restart of the client clears tls13ClientEarlyDataEnabled on every path (no second install of the early-data key)")
+    START = prog.const("SSL_HS_TLS_1_3_START")
+    n = 0
+    for fn in sorted(prog.functions.values(), key=lambda f: f.qname):
+        if not fn.blocks or not fn.relfile.startswith("matrixssl/tls13"):
+            continue
+        gf = None
+        for b in fn.blocks:
+            for i, ln, x in cu.block_exprs(b):
+                for m in walk(x):
+                    if m.get("k") == "bin" and m["op"] == "=" and (strip(m["l"]) or {}).get("f") == "hsState" and \
+                            (strip(m["r"]) or {}).get("k") == "int" and strip(m["r"])["v"] == START:
+                        if gf is None:
+                            gf = cu.guard_facts(fn)
+                        facts = gf.get(b["id"], frozenset())
+                        if ("ssl->tls13IncorrectDheKeyShare", True) not in facts:
+                            continue
+                        n += 1
+
+                        def clears(e):
+                            return any(q.get("k") == "bin" and q["op"] == "=" and (strip(q["l"]) or {}).get("f") == "tls13ClientEarlyDataEnabled" and
+                                       (strip(q["r"]) or {}).get("k") == "int" and strip(q["r"])["v"] == 0 for q in walk(e))
+                        # the clearing may precede the state store in the same block
+                        before = any(clears(x2) for i2, l2, x2 in cu.block_exprs(b)[:[j for j, (i2, _, _) in enumerate(cu.block_exprs(b)) if i2 == i][0]])
+                        esc = None if before else cu.escapes(fn, (b["id"], i), clears)
+                        f_ = None
+                        if esc is not None:
+                            f_ = Finding(PROP, rid, fn.name, "early data stays enabled after a HelloRetryRequest",
+                                         "%s:%s %s(): the client restarts at ClientHello after a HelloRetryRequest and leaves (via lines %s) with "
+                                         "tls13ClientEarlyDataEnabled still set: ClientHello2 re-installs the early-data write key with sec.seq = 0, "
+                                         "so further early data is sealed under nonces already used" % (fn.relfile, ln, fn.name, [p_[1] for p_ in esc[-5:]]),
+                                         file=fn.relfile, line=ln)
+                        res.instance(rid, "%s:%s HRR restart clears tls13ClientEarlyDataEnabled" % (fn.name, ln), esc is None, finding=f_)
+    res.floor(rid, 1)
